@@ -29,10 +29,12 @@ def dy(rng, choices=DYADIC01):
     return rng.choice(choices)
 
 
-def gen_cell(rng, ne, nm, mt, empty_p=0.25, big=False):
+def gen_cell(rng, ne, nm, mt, empty_p=0.25, big=False, huge=False):
     if rng.random() < empty_p:
         return dict(S=0, E=[0] * ne, I=0, R=0, M=[0] * nm, D=0)
     S = rng.choice([0, 1, 2, 5, 10, rng.randint(0, 40 if big else 20)])
+    if huge and rng.random() < 0.5:
+        S = rng.choice([100, 300, 257, rng.randint(50, 300)])   # the extracted model validates draws in quadratic time
     E = [0] * ne
     if mt == "SEI" and ne and rng.random() < 0.5:
         E = [rng.choice([0, 0, 1, 2, rng.randint(0, 6)]) for _ in range(ne)]
@@ -67,14 +69,17 @@ def gen_scenario(rng, focus=None, entry=None):
     host's own suitability is <= 1 but their sum is not - documented as rejected)."""
     sc = Scenario()
     entry = entry or ("rasters" if rng.random() < 0.12 else "pools")
-    rows, cols = rng.choice(SHAPES)
+    # a tail of larger scenarios: parameter values beyond the usual small ranges (long runs,
+    # long latency, long mortality trackers, more hosts, bigger rasters and counts)
+    large = rng.random() < 0.05
+    rows, cols = rng.choice(SHAPES + ([(5, 7), (6, 3), (1, 12), (7, 2)] * 3 if large else []))
     ncell = rows * cols
     res = rng.choice([("30", "30"), ("10", "30"), ("100", "100"), ("1/2", "1/2"), ("30", "10")])
     # calendar: short runs, a unit so that yearly things fire somewhere
     unit, n = rng.choice([("month", 1), ("month", 1), ("month", 2), ("week", 1), ("week", 2), ("day", 7), ("day", 28), ("month", 3)])
     sy = rng.choice([2019, 2020, 2021])
     start = (sy, rng.choice([1, 1, 3, 11, 12]) if unit != "month" else rng.choice([1, 1, 6, 10, 12]), 1)
-    nsteps_wanted = rng.randint(2, 14)
+    nsteps_wanted = rng.randint(15, 30) if large else rng.randint(2, 14)
     # find an end date giving about that many steps
     cur = start
     for _ in range(nsteps_wanted):
@@ -86,14 +91,14 @@ def gen_scenario(rng, focus=None, entry=None):
     nsteps = len(steps)
     run_steps = nsteps if rng.random() < 0.8 else rng.randint(1, nsteps)
     mt = rng.choice(["SI", "SEI", "SEI"]) if focus != "sei" else "SEI"
-    latency = rng.choice([0, 1, 2, 3]) if mt == "SEI" else 0
+    latency = (rng.choice([4, 5, 7]) if large and rng.random() < 0.6 else rng.choice([0, 1, 2, 3])) if mt == "SEI" else 0
     ne = latency + 1 if mt == "SEI" else rng.choice([0, 0, 2])
-    nm = rng.choice([1, 2, 3, 4])
+    nm = rng.choice([5, 6, 8]) if large and rng.random() < 0.6 else rng.choice([1, 2, 3, 4])
     det = focus == "det" or rng.random() < 0.25
     gen_st = 0 if det else rng.choice([0, 1])
     est_st = 0 if det else rng.choice([0, 1, 1])
     disp_st = rng.choice([0, 1, 1, 1])
-    nhosts = 1 if entry == "rasters" else (rng.choice([2, 3]) if focus in ("multi", "oversuit") else rng.choice([1, 1, 1, 2, 3]))
+    nhosts = 1 if entry == "rasters" else (rng.choice([4, 5]) if large and rng.random() < 0.4 else rng.choice([2, 3]) if focus in ("multi", "oversuit") else rng.choice([1, 1, 1, 2, 3]))
     season = rng.choice([(1, 12), (1, 12), (3, 9), (5, 6), (12, 12)])
     use = lambda p: 1 if rng.random() < p else 0
     f = focus
@@ -189,7 +194,7 @@ def gen_scenario(rng, focus=None, entry=None):
                     sc.add("comprow", ",".join(["1"] * nhosts), "1/2")
     hosts = []
     for h in range(nhosts):
-        cells = [gen_cell(rng, ne, nm, mt, big=(nhosts == 1)) for _ in range(ncell)]
+        cells = [gen_cell(rng, ne, nm, mt, big=(nhosts == 1), huge=large) for _ in range(ncell)]
         if all(c["I"] == 0 for c in cells) and h == 0:
             cells[rng.randrange(ncell)] = dict(S=10, E=[0] * ne, I=nm and 4, R=0, M=([4] + [0] * (nm - 1)), D=0)
         hosts.append(cells)
